@@ -1,8 +1,197 @@
-import TapkeeVerif.Model.Mds
-/-! C05 property theorems (under construction: the statements are being added; see Proofs/Spectral.lean). -/
-namespace TapkeeVerif.C05
+import TapkeeVerif.Proofs.Spectral
+import TapkeeVerif.Proofs.Centering
+import TapkeeVerif.Proofs.Covariance
+/-!
+# C05 — MDS and Kernel PCA return the optimal rank-`d` factor of the centred Gram matrix
 
-/-- the staged evaluation run by the driver is the model term -/
-theorem driver_runs_mdsPre {n : Nat} (δ : DMat n n Rat) : (mdsPreD δ).get = mdsPre δ.get := mdsPreD_eq δ
+Model (`Model/Center.lean`, `Model/Mds.lean`): `sqDistMatrix δ` (callback evaluated for `j ≥ i`, squared, mirrored),
+`centerMatrix` (the three in-place updates of `utils/matrix.hpp`), `scale negHalf`, `mdsPre`, `kernelMatrix`, `kpcaPre`,
+`isomapPreOfGeodesics`, `post V s` (`col j *= s j`), `clamp0` (`std::max(·, 0.0)`).
+The eigensolver enters as the contract `IsTopEig` / `IsEigSystem` (certificate-checked on every run by `model_c05`),
+`sqrt` as the contract `s j * s j = clamp0 (lam j)`.
+All theorems hold over every linearly ordered field (`ℝ`, `ℚ`), every `N`, `d`.
+-/
+namespace TapkeeVerif.C05
+open TapkeeVerif TapkeeVerif.Spectral Matrix Finset
+
+variable {K : Type} [Field K] [LinearOrder K] [IsStrictOrderedRing K]
+variable {N D d : Nat}
+
+/-- **`centerMatrix A = J·A·J`** for symmetric `A` (`J = 1 − (1/N)·11ᵀ`); the hypothesis is necessary because the code
+    subtracts column means on both sides. -/
+theorem center_eq_JAJ (A : Mat N N K) (hA : ∀ i j, A i j = A j i) :
+    Mat.toM (centerMatrix A) = Mat.toM (centering (K := K) N) * Mat.toM A * Mat.toM (centering (K := K) N) :=
+  TapkeeVerif.center_eq_JAJ A hA
+
+omit [LinearOrder K] [IsStrictOrderedRing K] in
+theorem sqDistMatrix_symm (δ : Fin N → Fin N → K) (i j : Fin N) : sqDistMatrix δ i j = sqDistMatrix δ j i := by
+  unfold sqDistMatrix
+  rcases lt_trichotomy i j with h | h | h
+  · rw [if_pos h.le, if_neg (not_le.2 h)]
+  · subst h; rfl
+  · rw [if_neg (not_le.2 h), if_pos h.le]
+
+omit [LinearOrder K] [IsStrictOrderedRing K] in
+theorem kernelMatrix_symm (κ : Fin N → Fin N → K) (i j : Fin N) : kernelMatrix κ i j = kernelMatrix κ j i := by
+  unfold kernelMatrix
+  rcases lt_trichotomy i j with h | h | h
+  · rw [if_pos h.le, if_neg (not_le.2 h)]
+  · subst h; rfl
+  · rw [if_neg (not_le.2 h), if_pos h.le]
+
+/-- what MDS hands to the eigensolver is `−½·J·D²·J` for EVERY distance callback (the code mirrors the upper triangle,
+    so no symmetry assumption on the callback is needed) -/
+theorem mdsPre_eq_JDJ (δ : Fin N → Fin N → K) (i j : Fin N) :
+    mdsPre δ i j = (Mat.toM (centering (K := K) N) * Mat.toM (sqDistMatrix δ) * Mat.toM (centering (K := K) N)) i j
+      * (-(1 / 2)) := by
+  have := congrFun (congrFun (TapkeeVerif.center_eq_JAJ (sqDistMatrix δ) (sqDistMatrix_symm δ)) i) j
+  simp only [Mat.toM_apply] at this
+  simp [mdsPre, scale, negHalf, this]
+
+/-- what Kernel PCA hands to the eigensolver is `J·K·J` for every kernel callback -/
+theorem kpcaPre_eq_JKJ (κ : Fin N → Fin N → K) :
+    Mat.toM (kpcaPre κ) = Mat.toM (centering (K := K) N) * Mat.toM (kernelMatrix κ) * Mat.toM (centering (K := K) N) :=
+  TapkeeVerif.center_eq_JAJ (kernelMatrix κ) (kernelMatrix_symm κ)
+
+/-- **classical MDS identity**: Euclidean distances ⇒ the matrix handed to the solver is the centred Gram matrix -/
+theorem mdsPre_eq_gram (X : Mat N D K) (δ : Fin N → Fin N → K)
+    (hδ : ∀ i j, δ i j * δ i j = ∑ a, (X i a - X j a) * (X i a - X j a)) :
+    Mat.toM (mdsPre δ) = Mat.toM (centred X) * (Mat.toM (centred X))ᵀ :=
+  TapkeeVerif.mdsPre_eq_gram X δ hδ
+
+omit [LinearOrder K] [IsStrictOrderedRing K] in
+/-- the post-processing `col j *= s j` is right multiplication by `diag s` -/
+theorem post_eq_mul_diagonal (V : Mat N d K) (s : Vec d K) : Mat.toM (post V s) = Mat.toM V * diagonal s := by
+  ext i j
+  simp [post, Matrix.mul_diagonal]
+
+/-- **the factor facts.**  `(V, lam)` any eigensystem of the matrix `B` handed to the solver, `s j ² = max (lam j) 0`
+    (the clamped square root): the returned `Y = V·diag s` has mutually orthogonal columns, column `j` has squared norm
+    `lam j⁺`, and `Y·Yᵀ = V·diag(lam⁺)·Vᵀ` — the spectral truncation of `B` to the retained non-negative eigenvalues. -/
+theorem mds_gram (B : Matrix (Fin N) (Fin N) K) (V : Mat N d K) (lam s : Vec d K)
+    (h : IsEigSystem B (Mat.toM V) lam) (hs : ∀ j, s j * s j = clamp0 (lam j)) :
+    (Mat.toM (post V s))ᵀ * Mat.toM (post V s) = diagonal (fun j => clamp0 (lam j)) ∧
+    Mat.toM (post V s) * (Mat.toM (post V s))ᵀ = Mat.toM V * diagonal (fun j => clamp0 (lam j)) * (Mat.toM V)ᵀ := by
+  rw [post_eq_mul_diagonal]
+  exact gram_of_scaled (Mat.toM V) s _ h.ortho hs
+
+omit [Field K] [IsStrictOrderedRing K] in
+theorem clamp0_of_nonneg [Zero K] {x : K} (hx : 0 ≤ x) : clamp0 x = x := by
+  simp [clamp0, not_lt.2 hx]
+
+/-- **Isomap with `k = N − 1` is MDS** (Gram level), given what property C04 proves about the geodesics: when every
+    sample has all others as neighbours and `δ` is a metric, the geodesic matrix is the matrix of direct distances
+    (`ge_direct` / `le_edge`, `Props/C04`).  Under that hypothesis Isomap hands the solver exactly `mdsPre δ`.
+    (Full statement: `k = N − 1 → Metric δ → isomapPre = mdsPre`; the Dijkstra model is C04's, so the geodesic identity
+    enters here as the hypothesis `hG`.) -/
+theorem isomap_full_k_eq_mds_partial (δ : Fin N → Fin N → K) (G : Mat N N K)
+    (hG : ∀ i j, G i j = if i ≤ j then δ i j else δ j i) :
+    isomapPreOfGeodesics G = mdsPre δ := by
+  funext i j
+  have h2 : ((2 : Nat) : K) ≠ 0 := by norm_num
+  have hS : (fun i j => (G i j * G i j + G j i * G j i) / ((2 : Nat) : K)) = sqDistMatrix δ := by
+    funext i j
+    unfold sqDistMatrix
+    rw [hG i j, hG j i]
+    rcases lt_trichotomy i j with h | h | h
+    · simp only [if_pos h.le, if_neg (not_le.2 h)]; field_simp; ring
+    · subst h; simp only [le_refl, if_true]; field_simp; ring
+    · simp only [if_neg (not_le.2 h), if_pos h.le]; field_simp; ring
+  simp only [isomapPreOfGeodesics, mdsPre, hS]
+
+/-- **the randomized solver is exact on inputs of rank ≤ d.**  Model of `eigendecomposition_impl_randomized`:
+    `Q` = the orthonormalised range sample `orth(A'·Ω)` (`QᵀQ = 1`), where `A' = upperView A` is what
+    `DenseMatrixOperation` reads (only the upper triangle of the argument — always a symmetric matrix); `(W, lam)` = a full
+    eigensystem of the small matrix `Qᵀ A' Q`.  If the range sample captures the range of `A'` (`Q·Qᵀ·A' = A'`: this is
+    `rank A' ≤ d` and `range(A'Ω) = range A'`), the returned `(Q·W, lam)` is an exact eigensystem of `A'` and everything
+    orthogonal to it lies in the kernel of `A'` — all non-zero eigenvalues are found. -/
+theorem randomized_exact_on_low_rank (A : Mat N N K) (Q : Matrix (Fin N) (Fin d) K) (W : Matrix (Fin d) (Fin d) K)
+    (lam : Fin d → K) (hQ : Qᵀ * Q = 1) (hrange : Q * Qᵀ * Mat.toM (upperView A) = Mat.toM (upperView A))
+    (hW : IsFullEigSystem (Qᵀ * Mat.toM (upperView A) * Q) W lam) :
+    IsEigSystem (Mat.toM (upperView A)) (Q * W) lam ∧
+    ∀ x : Fin N → K, (Q * W)ᵀ *ᵥ x = 0 → Mat.toM (upperView A) *ᵥ x = 0 := by
+  set A' := Mat.toM (upperView A) with hA'
+  have hsymm : A'ᵀ = A' := by
+    ext i j
+    simp only [transpose_apply, hA', Mat.toM_apply, upperView]
+    rcases lt_trichotomy i j with h | h | h
+    · rw [if_pos h.le, if_neg (not_le.2 h)]
+    · subst h; rfl
+    · rw [if_neg (not_le.2 h), if_pos h.le]
+  refine ⟨⟨?_, ?_⟩, ?_⟩
+  · calc A' * (Q * W) = (Q * Qᵀ * A') * (Q * W) := by rw [hrange]
+      _ = Q * ((Qᵀ * A' * Q) * W) := by simp only [Matrix.mul_assoc]
+      _ = Q * W * diagonal lam := by rw [hW.eig, Matrix.mul_assoc]
+  · rw [transpose_mul, Matrix.mul_assoc, ← Matrix.mul_assoc Qᵀ, hQ, Matrix.one_mul, hW.ortho]
+  · intro x hx
+    -- W is square with orthonormal columns, so Qᵀ x = 0
+    have hQx : Qᵀ *ᵥ x = 0 := by
+      have : W * Wᵀ = 1 := hW.mul_transpose_self
+      have h2 : Wᵀ *ᵥ (Qᵀ *ᵥ x) = 0 := by rw [mulVec_mulVec, ← transpose_mul]; exact hx
+      calc Qᵀ *ᵥ x = (W * Wᵀ) *ᵥ (Qᵀ *ᵥ x) := by rw [this, one_mulVec]
+        _ = W *ᵥ (Wᵀ *ᵥ (Qᵀ *ᵥ x)) := by simp only [mulVec_mulVec, Matrix.mul_assoc]
+        _ = 0 := by rw [h2, mulVec_zero]
+    -- A' = A' Q Qᵀ (transpose of the range condition)
+    have hr' : A' * (Q * Qᵀ) = A' := by
+      have := congrArg transpose hrange
+      rwa [transpose_mul, transpose_mul, transpose_transpose, hsymm] at this
+    calc A' *ᵥ x = (A' * (Q * Qᵀ)) *ᵥ x := by rw [hr']
+      _ = A' *ᵥ (Q *ᵥ (Qᵀ *ᵥ x)) := by simp only [mulVec_mulVec, Matrix.mul_assoc]
+      _ = 0 := by rw [hQx, mulVec_zero, mulVec_zero]
+
+/-! ### Exact recovery of the distances -/
+
+omit [LinearOrder K] [IsStrictOrderedRing K] in
+/-- squared distance between two rows in terms of the Gram matrix of the rows -/
+theorem rowSqDist_eq_gram (Y : Mat N d K) (i j : Fin N) :
+    rowSqDist Y i j = (Mat.toM Y * (Mat.toM Y)ᵀ) i i + (Mat.toM Y * (Mat.toM Y)ᵀ) j j
+      - 2 * (Mat.toM Y * (Mat.toM Y)ᵀ) i j := by
+  simp only [rowSqDist, sumFin_eq_sum, Matrix.mul_apply, transpose_apply, Mat.toM_apply, Finset.mul_sum,
+    ← Finset.sum_add_distrib, ← Finset.sum_sub_distrib]
+  exact Finset.sum_congr rfl fun a _ => by ring
+
+/-- **Exact recovery.**  Distances Euclidean (`δ i j ² = ‖x_i − x_j‖²`), `(V, lam)` an eigensystem of the matrix handed to
+    the solver whose eigenvectors span the range of that matrix (`hrank`: everything orthogonal to the returned
+    eigenvectors is in its kernel — this is how "the centred points span at most `d` dimensions and the solver returned
+    the leading ones" enters; it follows from `rank Xc ≤ d` and `IsTopEig`), `s` the clamped square roots: every
+    pairwise squared distance of the embedding equals the squared input distance, **exactly**. -/
+theorem mds_exact_recovery (X : Mat N D K) (δ : Fin N → Fin N → K)
+    (hδ : ∀ i j, δ i j * δ i j = ∑ a, (X i a - X j a) * (X i a - X j a))
+    (V : Mat N d K) (lam s : Vec d K) (h : IsEigSystem (Mat.toM (mdsPre δ)) (Mat.toM V) lam)
+    (hrank : ∀ x : Fin N → K, (Mat.toM V)ᵀ *ᵥ x = 0 → Mat.toM (mdsPre δ) *ᵥ x = 0)
+    (hs : ∀ j, s j * s j = clamp0 (lam j)) :
+    ∀ i j, rowSqDist (post V s) i j = δ i j * δ i j := by
+  set B := Mat.toM (mdsPre δ) with hB
+  set Vm := Mat.toM V with hVm
+  set Xc := Mat.toM (centred X) with hXc
+  have hBG : B = Xc * Xcᵀ := mdsPre_eq_gram X δ hδ
+  -- 1. the retained eigenvalues are non-negative (B is a Gram matrix)
+  have hlam : ∀ j, 0 ≤ lam j := by
+    intro j
+    have h1 : (Vmᵀ * B * Vm) j j = lam j := by
+      rw [Matrix.mul_assoc, h.eig, ← Matrix.mul_assoc, h.ortho, Matrix.one_mul, diagonal_apply_eq]
+    have h2 : Vmᵀ * B * Vm = (Xcᵀ * Vm)ᵀ * (Xcᵀ * Vm) := by
+      rw [hBG, transpose_mul, transpose_transpose]; simp only [Matrix.mul_assoc]
+    rw [← h1, h2, Matrix.mul_apply]
+    exact Finset.sum_nonneg fun a _ => by rw [transpose_apply]; exact mul_self_nonneg _
+  -- 2. B equals its spectral truncation
+  have hBV : B = Vm * diagonal lam * Vmᵀ := by
+    rw [ext_iff_mulVec]
+    intro x
+    have hperp : Vmᵀ *ᵥ (x - Vm *ᵥ (Vmᵀ *ᵥ x)) = 0 := by
+      rw [mulVec_sub, mulVec_mulVec, h.ortho, one_mulVec, sub_self]
+    have h0 := hrank _ hperp
+    rw [mulVec_sub, sub_eq_zero] at h0
+    rw [h0, mulVec_mulVec, h.eig]
+    simp only [mulVec_mulVec, Matrix.mul_assoc]
+  -- 3. Y Yᵀ = B
+  have hYY : Mat.toM (post V s) * (Mat.toM (post V s))ᵀ = B := by
+    have hc : (fun j => clamp0 (lam j)) = lam := funext fun j => clamp0_of_nonneg (hlam j)
+    rw [(mds_gram B V lam s h hs).2, hc, ← hBV]
+  intro i j
+  rw [rowSqDist_eq_gram, hYY, hBG, hδ i j]
+  simp only [Matrix.mul_apply, transpose_apply, hXc, Mat.toM_apply, centred, Finset.mul_sum,
+    ← Finset.sum_add_distrib, ← Finset.sum_sub_distrib]
+  exact Finset.sum_congr rfl fun a _ => by ring
 
 end TapkeeVerif.C05
